@@ -102,6 +102,17 @@ func init() {
 		in.e.Assert(a[0].(*Term), label, site)
 		return nil
 	})
+	reg(vapiPkg+"AssertBytesEqual", func(in *Interp, fr *frame, fn *ssa.Function, a []Value, site string) Value {
+		x, y := bsliceStr(a[0].(BSlice)), bsliceStr(a[1].(BSlice))
+		label := in.mustConcStr(a[2], "vapi.AssertBytesEqual label")
+		// refute with a fresh index: needs no bound on the length
+		kn := in.e.freshName("eqidx")
+		k := Var(kn, 64)
+		in.e.inputs = append(in.e.inputs, inputDecl{name: kn, kind: "int", t: k, w: 64})
+		differ := And(Ult(k, x.len), Ne(x.arr.Select(Add(x.off, k)), y.arr.Select(Add(y.off, k))))
+		in.e.Assert(And(Eq(x.len, y.len), Not(differ)), label, site)
+		return nil
+	})
 	reg(vapiPkg+"Cover", func(in *Interp, fr *frame, fn *ssa.Function, a []Value, site string) Value {
 		in.e.Cover(in.mustConcStr(a[0], "vapi.Cover label"))
 		return nil
